@@ -94,9 +94,13 @@ class Agg:
         self.timeouts = 0
         self.cpu = 0.0
         self.extra = Counter()
+        self.bulk_states = 0      # chunked sweeps: distinct results counted inside the chunk (injectivity checked there)
+        self.bulk_nontrivial = 0
 
     def add(self, idx, case, res, recheck_n=0):
-        self.evaluations += 1
+        self.evaluations += res.get("n", 1)
+        self.bulk_states += res.get("nstates", 0)
+        self.bulk_nontrivial += res.get("nnontrivial", 0)
         self.transitions += res.get("trans", 1)
         self.traces += res.get("traces", 1)
         if "states" in res:
@@ -140,6 +144,8 @@ class Agg:
         self.extra.update(o.extra)
         self.timeouts += o.timeouts
         self.cpu += o.cpu
+        self.bulk_states += o.bulk_states
+        self.bulk_nontrivial += o.bulk_nontrivial
         for k, slot in o.fails.items():
             mine = self.fails.setdefault(k, {"count": 0, "witnesses": []})
             mine["count"] += slot["count"]
@@ -228,12 +234,12 @@ class Ctx:
             for k, v in payload.digests.items():
                 if part.digests.get(k) != v:
                     raise HarnessError(f"{name}: case #{k} gave different observations in a fresh process")
-        self.parts.append({"space": name, "cases": part.evaluations, "states": len(part.states),
-                           "transitions": part.transitions, "nontrivial": len(part.nontrivial),
+        self.parts.append({"space": name, "cases": part.evaluations, "states": len(part.states) + part.bulk_states,
+                           "transitions": part.transitions, "nontrivial": len(part.nontrivial) + part.bulk_nontrivial,
                            "outcomes": len(part.outcomes), "timeouts": part.timeouts,
                            "wall_s": round(time.time() - t, 2)})
-        print(f"[{self.prop}] {name}: cases={part.evaluations} states={len(part.states)} "
-              f"transitions={part.transitions} nontrivial={len(part.nontrivial)} "
+        print(f"[{self.prop}] {name}: cases={part.evaluations} states={len(part.states) + part.bulk_states} "
+              f"transitions={part.transitions} nontrivial={len(part.nontrivial) + part.bulk_nontrivial} "
               f"outcomes={len(part.outcomes)} fails={sum(s['count'] for s in part.fails.values())} "
               f"({time.time() - t:.1f}s)", flush=True)
         part.digests = {}
@@ -282,12 +288,12 @@ class Ctx:
             "seed": self.seed,
             "level": "model_checking",
             "coverage": {
-                "states": len(a.states),
+                "states": len(a.states) + a.bulk_states,
                 "transitions": a.transitions,
                 "traces_validated_against_impl": a.traces,
                 "samples": samples,
                 "evaluations": a.evaluations,
-                "distinct_nontrivial": len(a.nontrivial),
+                "distinct_nontrivial": len(a.nontrivial) + a.bulk_nontrivial,
                 "rule": self.rule,
                 "bounds": self.bounds,
                 "exhaustive": bool(self.exhaustive),
@@ -311,8 +317,8 @@ class Ctx:
         with open(evpath, "w") as f:
             json.dump(ev, f, indent=1, sort_keys=True, ensure_ascii=True)
             f.write("\n")
-        print(f"[{self.prop}] tier={self.tier} seed={self.seed} cases={a.evaluations} states={len(a.states)} "
-              f"transitions={a.transitions} traces={a.traces} nontrivial={len(a.nontrivial)} "
+        print(f"[{self.prop}] tier={self.tier} seed={self.seed} cases={a.evaluations} states={len(a.states) + a.bulk_states} "
+              f"transitions={a.transitions} traces={a.traces} nontrivial={len(a.nontrivial) + a.bulk_nontrivial} "
               f"distinct_outcomes={len(a.outcomes)} exhaustive={self.exhaustive} wall={wall:.1f}s")
         for ln in lines:
             print(ln)
